@@ -410,7 +410,7 @@ func genGenCase(t *rapid.T, prop string) *genCase {
 		p := &PackageSpec{}
 		nf := 6 + uniform(t, "nfiles", 10)
 		for fi := 0; fi < nf; fi++ {
-			f := &FileSpec{Name: fmt.Sprintf("f%d.go", fi+1), Header: "//go:build cff\n", Idx: fi}
+			f := &FileSpec{Name: fileName(t, fi), Header: "//go:build cff\n", Idx: fi}
 			s := GenFlow(t, fmt.Sprintf("Prog%d", fi), o)
 			if uniform(t, "mutate", 3) != 0 {
 				gc.mutation[f.Name] = Mutate(t, s)
